@@ -275,6 +275,13 @@ def setup_cases():
     return out
 
 
+def grounds():
+    from contracts.common import ground_script
+    from pyvc.pack import Ground
+
+    return [Ground(f"{PROP}/calldata#calldatasize", ground_script("calldatasize_of_dynamic_arguments.py", "check_cds(bytes b) { assert(msg.data.length != 68); }", "PASS within the printed bounds covers every argument: what a test observes of its calldata (CALLDATASIZE included) is what the concrete call with that argument shows"), sources=("halmos.calldata:Calldata.create",))]
+
+
 def build_cases(tier="quick"):
     from contracts import c05
 
